@@ -398,7 +398,7 @@ let step_of toks : Context.step =
   | ["ISTR"; i] -> Context.SIStr (big i)
   | ["INTERNDEST"; n] -> Context.SInternDest (big n) | ["INTERNCOPY"; h] -> Context.SInternCopy (nlist_of_hex h)
   | ["LOGPLAN"; n] -> Context.SLogPlan (big n) | ["LOGCOPY"; h] -> Context.SLogCopy (nlist_of_hex h)
-  | ["LOAD"; k] -> Context.SLoad (nlist_of_string keys.(int_of_string k))
+  | ["LOAD"; k] | ["SLOAD"; k] -> Context.SLoad (nlist_of_string keys.(int_of_string k))
   | ["FIN"] -> Context.SFinalize | ["VIEW"] -> Context.SView | ["OUT"] -> Context.SOut
   | _ -> failwith ("ctx: bad step " ^ St.concat " " toks)
 
